@@ -120,6 +120,14 @@ pub const NUMBERS: &[f64] = &[
     123456789012345.67,
     -1e-300,
     1.5e300,
+    // halves just below 2^53, 16 significant digits ending in 5, a negative subnormal
+    4503599627370496.5,
+    6755399441055743.5,
+    9007199254740991.0,
+    0.1234567890123455,
+    1.000000000000005,
+    -5e-324,
+    2.5e-323,
 ];
 
 pub const UNITS: &[&str] = &["kW", "°F", "%", "$", "m²", "kWh/m²", "gH₂O/kgAir", "W/ft²_irr", "Δ°C", "µs", "R$", "Ω", "inHg", "ft²"];
@@ -192,7 +200,7 @@ pub fn numbers() -> Vec<V> {
         v.push(V::num(x));
     }
     for &u in UNITS {
-        for &x in &[0.0, -0.0, 1.0, -1.0, 0.5, 1e-7, 123456789.125, 1e21, 5e-324, -2.5e-3, 100.0] {
+        for &x in &[0.0, -0.0, 1.0, -1.0, 0.5, 1e-7, 123456789.125, 1e21, 5e-324, -5e-324, -2.5e-3, 100.0, 4503599627370496.5] {
             v.push(V::numu(x, u));
         }
     }
